@@ -50,6 +50,19 @@ Theorem c08_chunk_size p c p' evs :
   st p = SChunkSize -> (csize p < 0)%Z -> stepb p c = Go_on p' evs -> is_hex c = false ->
   signed_digits is_hex (tok p) /\ (0 <= csize p' < 4611686018427387904)%Z.
 Proof. exact (chunk_size_accepted p c p' evs). Qed.
+(* behind the digits only SP, HT, ';' or CR; no second number behind whitespace (fix 291b0e9) *)
+Theorem c08_chunk_size_delimiter p c :
+  st p = SChunkSize -> is_hex c = false -> c <> SP -> c <> HT -> c <> SEMI -> c <> CR ->
+  stepb p c = Fail ErrInvalidChunkSize [].
+Proof. exact (chunk_size_delimiter p c). Qed.
+Theorem c08_chunk_size_no_second_number p c :
+  st p = SChunkSize -> (0 <= csize p)%Z -> is_hex c = true -> stepb p c = Fail ErrInvalidChunkSize [].
+Proof. exact (chunk_size_no_second_number p c). Qed.
+(* no stray byte is skipped in front of a trailer line or the end of the trailer section (fix b766d6d) *)
+Theorem c08_trailer_section_stray p c :
+  st p = STrailerKeyBefore -> is_token c = false -> c <> CR -> c <> SP -> c <> HT ->
+  stepb p c = Fail ErrInvalidCharInHeader [].
+Proof. exact (trailer_section_stray p c). Qed.
 
 (* non-vacuity: an over-long header under ReadLimit 16 fed byte-wise ends in ErrTooLong with 16 bytes retained *)
 Example c08_example :
@@ -67,3 +80,6 @@ Print Assumptions c08_transfer_encoding.
 Print Assumptions c08_content_length.
 Print Assumptions c08_chunk_size_first.
 Print Assumptions c08_chunk_size.
+Print Assumptions c08_chunk_size_delimiter.
+Print Assumptions c08_chunk_size_no_second_number.
+Print Assumptions c08_trailer_section_stray.
